@@ -176,7 +176,7 @@ pub fn run_case_with(c: &Case, prefix: &str, tolerated: &[String], sticky: bool)
     let rt = case_runtime();
     let rep = rt.block_on(async {
         let mut rep = Report::new();
-        let mut run = Run::boot(&c.cfg, "c14", RunOpts { certificates: true, rows: false, client_verifier: true, signers_by_true_key: false, expect_certificate_on_honest_quorum: false }).await;
+        let mut run = Run::boot(&c.cfg, "c14", RunOpts { certificates: true, rows: false, client_verifier: true, signers_by_true_key: false, expect_certificate_on_honest_quorum: false, sign_once: false }).await;
         run.tolerated = tolerated.to_vec();
         for op in &c.ops {
             if run.violation.is_some() {
